@@ -309,6 +309,7 @@ def run(ctx):
                 chk.violation("R13.5", "var-name:%d" % nvar, "a variable token is not named by exactly the matched text: %s" % term[:200], loc(st["span"]))
     chk.floor("R13.5", "variable token sites", nvar, 2)
     number_literal(chk, fb)
+    boundary_helper(chk, fb)
 
 
 def number_literal(chk, fb, RID="R13.6"):
@@ -442,3 +443,67 @@ def number_literal(chk, fb, RID="R13.6"):
         chk.ok(RID, "NumberMatcher::is_literal = is_numeric_text", "", loc(nm[0]["span"]))
     else:
         chk.violation(RID, "matcher", "NumberMatcher::is_literal does not return is_numeric_text(text) unchanged: %s" % [show(q.result)[:100] if q.result is not None else q.status for q in qs][:3], loc(nm[0]["span"]))
+
+
+def boundary_helper(chk, fb, RID="R13.7"):
+    """R13.7: the helper that tells the tokenizer how far the next character reaches returns, on every path, a distance to a
+    character boundary of the text: the index found by a search for `is_char_boundary(start + i)`, an index handed out by
+    char_indices minus the start, the text length minus the start, or a len_utf8.  A constant fallback lands inside a multi-byte
+    character (the tokenizer then slices the text there)."""
+    from analysis import rel
+    chk.rule(RID, "next_char_boundary returns a distance to a character boundary on every path (found by is_char_boundary / char_indices / len / len_utf8), never a constant")
+    nb = fb.find_bodies(lambda b: b["kind"] == "Fn" and b["path"] == "parser::next_char_boundary")
+    if len(nb) != 1:
+        chk.violation(RID, "anchor", "parser::next_char_boundary not found")
+        return
+    b = nb[0]
+    names = [b["locals"][i].get("name") or "a%d" % i for i in range(1, b["arg_count"] + 1)]
+    tname = next((n for i, n in enumerate(names, 1) if "str" in b["locals"][i]["ty"]), names[0])
+    sname = next((n for i, n in enumerate(names, 1) if b["locals"][i]["ty"] == "usize"), names[-1])
+
+    class P(Policy):
+        max_depth = 3
+
+        def inline(self, fn, args, interp, path):
+            return False
+
+        def inline_closure(self, cp, args, interp, path):
+            return False
+    ps = [p for p in Interp(fb, P()).run(b, [Sym(n) for n in names]) if p.status != "unreachable"]
+
+    def pred_is_boundary(c):
+        cb = fb.bodies.get(c.path)
+        if cb is None:
+            return False
+        env = Closure(c.path, {k: (v if isinstance(v, Sym) else Sym(k)) for k, v in c.caps.items()})
+        qs = [q for q in Interp(fb, P()).run(cb, [env, Sym("i")]) if q.status != "unreachable"]
+        return len(qs) == 1 and qs[0].status == "return" and re.match(
+            r"^core::str::<impl str>::is_char_boundary\(%s, (std::ops::Add::add|binop:Add)\((%s, i|i, %s)\)\)$" % (re.escape(tname), re.escape(sname), re.escape(sname)), show(qs[0].result)) is not None
+
+    def boundary(v, depth=0):
+        v = rel.canon(v)
+        if depth > 6 or not isinstance(v, App):
+            return False
+        s = rel.cstr(v)
+        if v.fn.endswith("len_utf8"):
+            return True
+        if v.fn in ("std::option::Option::<T>::expect", "std::option::Option::<T>::unwrap") and v.args:
+            return found(v.args[0])
+        if v.fn == ".0" and isinstance(v.args[0], App) and v.args[0].fn == "as:Some":
+            return found(v.args[0].args[0])
+        if v.fn in ("binop:Sub", "std::ops::Sub::sub") and len(v.args) == 2 and rel.cstr(v.args[1]) == sname:
+            x = rel.cstr(v.args[0])
+            return x == "core::str::<impl str>::len(%s)" % tname or "char_indices(%s)" % tname in x
+        return False
+
+    def found(o):
+        o = rel.canon(o)
+        return isinstance(o, App) and o.fn == "std::iter::Iterator::find" and len(o.args) == 2 and isinstance(o.args[1], Closure) and pred_is_boundary(o.args[1])
+    bad = [p for p in ps if p.status != "return" or not boundary(p.result)]
+    if not ps:
+        chk.unrecognised(RID, "shape", "no path through next_char_boundary", loc(b["span"]))
+    elif bad:
+        chk.violation(RID, "offset", "next_char_boundary can return %s, which need not be the distance to the next character boundary" % (
+            show(bad[0].result)[:120] if bad[0].result is not None else bad[0].status), loc(b["span"]))
+    else:
+        chk.ok(RID, "boundary offsets", "%d path(s)" % len(ps), loc(b["span"]))
